@@ -772,7 +772,7 @@ func (ex *Exec) autoCounterFacts(fr *Frame, li *loopInfo, entry, hst *State) {
 		}
 		e, ok1 := entry.locals[a]
 		h, ok2 := hst.locals[a]
-		if !ok1 || !ok2 || ex.L.bv {
+		if !ok1 || !ok2 {
 			continue
 		}
 		// also called from passes where cells were passed by address: skip those
@@ -780,10 +780,26 @@ func (ex *Exec) autoCounterFacts(fr *Frame, li *loopInfo, entry, hst *State) {
 			continue
 		}
 		if d.up && !d.down {
-			ex.assume(hst, ex.tb.Ge(h.C[0], e.C[0]))
+			ex.assume(hst, ex.le(e.C[0], h.C[0]))
+			// range-over-slice/array/string index: stays below the length it is compared with
+			if a.Comment == "rangeindex" {
+				for _, hb := range li.header.Instrs {
+					if cmp, ok := hb.(*ssa.BinOp); ok && cmp.Op == token.LSS {
+						if inc, ok := cmp.X.(*ssa.BinOp); ok && inc.Op == token.ADD {
+							if ld, ok := inc.X.(*ssa.UnOp); ok && ld.X == ssa.Value(a) {
+								if lv, ok := fr.regs[cmp.Y]; ok {
+									ex.assume(hst, ex.lt(h.C[0], ex.toIndex(lv)))
+								} else if c, ok := cmp.Y.(*ssa.Const); ok {
+									ex.assume(hst, ex.lt(h.C[0], ex.toIndex(ex.constValue(c))))
+								}
+							}
+						}
+					}
+				}
+			}
 		}
 		if d.down && !d.up {
-			ex.assume(hst, ex.tb.Le(h.C[0], e.C[0]))
+			ex.assume(hst, ex.le(h.C[0], e.C[0]))
 		}
 	}
 }
